@@ -6,3 +6,4 @@ from . import graphq   # noqa: F401
 from . import modelr   # noqa: F401
 from . import transformr  # noqa: F401
 from . import layoutr  # noqa: F401
+from . import purity   # noqa: F401
